@@ -93,4 +93,14 @@ META = {
               "instantiate = denotation (partial w.r.t. the 'no more and no fewer connections' clause). Trusted: YAML layer, f64<->ms rendering, names without '.', "
               "hash-order-dependent descriptions compared weakly."),
         technique=_T),
+    "C06": dict(
+        text=("Lean 4 theorems about an executable model of Harness::exec on tokio 1.45.1 (two run queues, LocalSet tick budget L, event_interval E, deferred wakers, coop budget C): "
+              "one pass drains iff the polls needed fit L and E and no cross wake / deferral happened (C06.pass_drains_iff, exec_drains_iff for the pre-repair code, with decide'd witnesses "
+              "for F4/F4b/F4c/F4d); the repaired exec repeats passes until idle and always ends with nothing runnable for any budgets >= 1 (C06.exec_drains, fuel proved sufficient), hence "
+              "no task observes a time later than its enabling instant (C06.no_await_observes_later_time). Tied to the code by real async des simulations whose global record order and "
+              "times are compared with the model, and whose measured budgets must equal the model's parameters."),
+        design_ref="DESIGN.md §5 C06",
+        note=("Partial: the scheduler model is an abstraction of tokio validated only by the tie; single-waiter conditions; timers / inject queue / remote queue and cross-module wakes not covered. "
+              "Trusted: Lean kernel, standard axioms, harness, driver, orchestrator. The model mirrors /repo after the two C06 repairs (event_interval, drain loop in Harness::exec)."),
+        technique=_T),
 }
